@@ -2,6 +2,7 @@ package main
 
 import (
 	"context"
+	"errors"
 	"fmt"
 	"strconv"
 	"strings"
@@ -185,7 +186,16 @@ type cmdProcessor interface {
 	ProcessCommand(ctx context.Context, cmd *lime.RequestCommand) (*lime.ResponseCommand, error)
 	RespCmdChan() <-chan *lime.ResponseCommand
 	VerifPendingCommands() int
+	Established() bool
 }
+
+// refused: the call came back with an error of its own - not the context's, and the session is fine - i.e. the
+// channel turned the request down (an id that is already waiting for its response).  (Decided without looking at the
+// wording of the error.)
+func refused(err error, ctx context.Context, proc cmdProcessor) bool {
+	return err != nil && ctx.Err() == nil && !errors.Is(err, context.Canceled) && !errors.Is(err, context.DeadlineExceeded) && proc.Established()
+}
+
 type cmdPeer interface {
 	ReqCmdChan() <-chan *lime.RequestCommand
 	SendResponseCommand(ctx context.Context, cmd *lime.ResponseCommand) error
@@ -330,7 +340,7 @@ func runC05History(transport, role string, ids []int, history []hAction) (*c05Ca
 				switch {
 				case err == nil && resp != nil:
 					results[r] = fmt.Sprintf("resp:%d:%d", idOf(resp.ID), tagOf(resp))
-				case err != nil && strings.Contains(err.Error(), "already in use"):
+				case refused(err, ctx, proc):
 					results[r] = "rejected"
 				case err != nil && ctx.Err() != nil:
 					results[r] = "ctx"
@@ -502,7 +512,7 @@ func runC05Burst(transport, role string, k, id int) (*c05Case, error) {
 			switch {
 			case err == nil && resp != nil:
 				res = fmt.Sprintf("resp:%d:%d", idOf(resp.ID), tagOf(resp))
-			case err != nil && strings.Contains(err.Error(), "already in use"):
+			case refused(err, ctx, proc):
 				res = "rejected"
 			case err != nil && ctx.Err() != nil:
 				res = "ctx"
